@@ -1,1 +1,211 @@
+//! KI8 — small inflate entry points on a typed state: prime, sync, sync_point, mark, validate, undermine, codes_used,
+//! reset family, get_header (C14, C16, C02).
 use super::*;
+
+/// reset == fresh: from a state with every scalar arbitrary, `reset_with_config` gives the same state as on a
+/// freshly constructed `State` (what `init()` builds) for the same window_bits.
+#[kani::proof]
+#[kani::unwind(6)]
+#[kani::stub(core::fmt::write, stub_fmt_write)]
+#[kani::stub(core::panicking::panic_nounwind, stub_pn)]
+#[kani::stub(core::panicking::panic_nounwind_fmt, stub_pnf)]
+fn ki8_reset_equals_fresh() {
+    let mut wina = [0u8; 8 + 64];
+    let mut winb = [0u8; 8 + 64];
+    let mut a = typed_state(&mut wina, 0, Mode::Head);
+    let mut b = State::new(&[], Writer::new(&mut []));
+    b.window = unsafe { Window::from_raw_parts(winb.as_mut_ptr(), 8 + 64) };
+    b.chunksize = 32;
+    // dirty `a`: any previous history
+    a.mode = match kani::any::<u8>() % 8 {
+        0 => Mode::Head,
+        1 => Mode::Name,
+        2 => Mode::CopyBlock,
+        3 => Mode::Match,
+        4 => Mode::Check,
+        5 => Mode::Done,
+        6 => Mode::Bad,
+        _ => Mode::Sync,
+    };
+    a.wrap = kani::any();
+    a.wbits = kani::any();
+    a.flags = Flags(kani::any::<u8>() & 7);
+    a.total = kani::any();
+    a.length = kani::any();
+    a.offset = kani::any();
+    a.extra = kani::any();
+    a.back = kani::any();
+    a.was = kani::any();
+    a.gzip_flags = kani::any();
+    a.checksum = kani::any();
+    a.dmax = kani::any();
+    a.next = kani::any();
+    a.have = kani::any();
+    a.ncode = kani::any();
+    a.nlen = kani::any();
+    a.ndist = kani::any();
+    a.len_table = Table { codes: Codes::Len, bits: kani::any() };
+    a.dist_table = Table { codes: Codes::Dist, bits: kani::any() };
+    a.error_message = if kani::any() { Some("x\0") } else { None };
+    a.bit_reader.prime(kani::any::<u8>() % 32, kani::any());
+    unsafe { a.window.set_have(kani::any::<usize>() % 9) };
+    let mut sa = typed_stream(unsafe { &mut *(&mut a as *mut State) });
+    let mut sb = typed_stream(unsafe { &mut *(&mut b as *mut State) });
+    sa.total_in = kani::any();
+    sa.total_out = kani::any();
+    sa.adler = kani::any();
+    let wb: i32 = kani::any();
+    let cfg = InflateConfig { window_bits: wb };
+    let ra = reset_with_config(&mut sa, cfg);
+    let rb = reset_with_config(&mut sb, cfg);
+    assert!(ra == rb);
+    // accepted window_bits: -15..=-8, 0, 8..=15, 24..=31 (gzip), 40..=47 (auto), as documented for inflateInit2
+    let ok = (wb >= -15 && wb <= -8) || wb == 0 || (wb >= 8 && wb <= 15) || (wb >= 24 && wb <= 31) || (wb >= 40 && wb <= 47)
+        || wb == 16 || wb == 32;
+    if ra == ReturnCode::Ok {
+        let (x, y) = (&sa.state, &sb.state);
+        assert!(x.wrap == y.wrap && x.wbits == y.wbits);
+        assert!(matches!(x.mode, Mode::Head));
+        assert!(x.flags.0 == y.flags.0 && x.total == y.total && x.gzip_flags == y.gzip_flags && x.checksum == y.checksum);
+        assert!(x.dmax == y.dmax && x.next == y.next && x.back == y.back);
+        assert!(x.bit_reader.bits_in_buffer() == 0 && x.bit_reader.hold() == 0);
+        assert!(x.window.have() == 0 && x.window.next() == 0);
+        assert!(x.head.is_none() && x.error_message.is_none());
+        assert!(matches!(x.len_table.codes, Codes::Fixed) && x.len_table.bits == y.len_table.bits);
+        assert!(sa.total_in == 0 && sa.total_out == 0 && sa.msg.is_null());
+        assert!(x.wrap == 0 || sa.adler as u32 == (x.wrap & 1) as u32);
+    } else {
+        assert!(ra == ReturnCode::StreamError);
+    }
+    assert!(ok || ra == ReturnCode::StreamError);
+    kani::cover!(ra == ReturnCode::Ok && wb == 47);
+    kani::cover!(ra == ReturnCode::StreamError && wb == 7);
+    core::mem::forget(sa);
+    core::mem::forget(sb);
+    core::mem::forget(a);
+    core::mem::forget(b);
+}
+
+/// prime / validate / undermine / mark / sync_point / codes_used / get_header: any integer arguments, documented effect
+#[kani::proof]
+#[kani::unwind(6)]
+#[kani::stub(core::fmt::write, stub_fmt_write)]
+#[kani::stub(core::panicking::panic_nounwind, stub_pn)]
+#[kani::stub(core::panicking::panic_nounwind_fmt, stub_pnf)]
+fn ki8_small_entry_points() {
+    let mut win = [0u8; 8 + 64];
+    let wrap: u8 = kani::any();
+    kani::assume(wrap <= 7);
+    let mut state = typed_state(&mut win, wrap, Mode::Stored);
+    let nb0: u8 = kani::any();
+    kani::assume(nb0 <= 31);
+    let v0: u64 = kani::any();
+    state.bit_reader.prime(nb0, v0);
+    let hold0 = state.bit_reader.hold();
+    let mut io = [0u8; 2];
+    let mut strm = typed_stream(unsafe { &mut *(&mut state as *mut State) });
+    strm.next_in = io.as_mut_ptr();
+    strm.next_out = io.as_mut_ptr();
+    // inflatePrime
+    let bits: i32 = kani::any();
+    let value: i32 = kani::any();
+    let rc = prime(&mut strm, bits, value);
+    if bits == 0 {
+        assert!(rc == ReturnCode::Ok && strm.state.bit_reader.bits_in_buffer() == nb0);
+    } else if bits < 0 {
+        assert!(rc == ReturnCode::Ok && strm.state.bit_reader.bits_in_buffer() == 0 && strm.state.bit_reader.hold() == 0);
+    } else if bits > 16 || nb0 as i32 + bits > 32 {
+        assert!(rc == ReturnCode::StreamError && strm.state.bit_reader.bits_in_buffer() == nb0 && strm.state.bit_reader.hold() == hold0);
+    } else {
+        assert!(rc == ReturnCode::Ok);
+        assert!(strm.state.bit_reader.bits_in_buffer() as i32 == nb0 as i32 + bits);
+        let add = (value as u64) & ((1u64 << bits) - 1);
+        assert!(strm.state.bit_reader.hold() == hold0 + (add << nb0));
+    }
+    // sync_point: only at a stored-block header with an empty register
+    let sp = sync_point(&mut strm);
+    assert!(sp == (strm.state.bit_reader.bits_in_buffer() == 0));
+    // validate toggles bit 2 of wrap only for wrapped streams
+    let chk: bool = kani::any();
+    assert!(validate(&mut strm, chk) == ReturnCode::Ok);
+    assert!(strm.state.wrap & 3 == wrap & 3);
+    assert!((strm.state.wrap & 4 != 0) == (chk && wrap != 0));
+    // undermine: any subvert value
+    let sub: i32 = kani::any();
+    assert!(undermine(&mut strm, sub) == ReturnCode::Ok);
+    // mark: never aborts, encodes `back` and the progress inside a block
+    strm.state.back = kani::any::<usize>() % 0x8000;
+    strm.state.length = kani::any::<usize>() % 65536;
+    let mk = mark(&strm);
+    assert!(mk == ((strm.state.back as core::ffi::c_long) << 16));
+    strm.state.mode = Mode::CopyBlock;
+    let mk = mark(&strm);
+    assert!(mk == ((strm.state.back as core::ffi::c_long) << 16) + strm.state.length as core::ffi::c_long);
+    let _ = codes_used(&strm);
+    // get_header: only gzip-capable streams accept a capture struct; `done` starts at 0
+    let mut head = gz_header::default();
+    head.done = 7;
+    let r = unsafe { get_header(&mut strm, Some(&mut *(&mut head as *mut gz_header))) };
+    if strm.state.wrap & 2 == 0 {
+        assert!(r == ReturnCode::StreamError && head.done == 7 && strm.state.head.is_none());
+    } else {
+        assert!(r == ReturnCode::Ok && head.done == 0 && strm.state.head.is_some());
+    }
+    kani::cover!(rc == ReturnCode::StreamError && bits == 16);
+    kani::cover!(rc == ReturnCode::Ok && bits == 16 && nb0 == 16);
+    core::mem::forget(strm);
+    core::mem::forget(state);
+}
+
+/// inflateSync: scans for 00 00 FF FF, consumes up to and including the marker, never beyond the input
+#[kani::proof]
+#[kani::unwind(10)]
+#[kani::stub(core::fmt::write, stub_fmt_write)]
+#[kani::stub(core::panicking::panic_nounwind, stub_pn)]
+#[kani::stub(core::panicking::panic_nounwind_fmt, stub_pnf)]
+fn ki8_sync() {
+    const NI: usize = 7;
+    let mut input: [u8; NI] = kani::any();
+    let n_in: u32 = kani::any();
+    kani::assume(n_in as usize <= NI);
+    let mut win = [0u8; 8 + 64];
+    let wrap: u8 = kani::any();
+    kani::assume(wrap <= 7);
+    let mut state = typed_state(&mut win, wrap, Mode::Len);
+    let hdr_seen: bool = kani::any();
+    state.gzip_flags = if hdr_seen { 0 } else { -1 };
+    let mut strm = typed_stream(unsafe { &mut *(&mut state as *mut State) });
+    strm.next_in = input.as_mut_ptr();
+    strm.avail_in = n_in;
+    strm.next_out = input.as_mut_ptr();
+    strm.total_in = 100;
+    strm.total_out = 50;
+    let rc = sync(&mut strm);
+    let used = (n_in - strm.avail_in) as usize;
+    assert!(strm.avail_in <= n_in && strm.next_in as usize == input.as_ptr() as usize + used);
+    assert!(strm.total_in == 100 + used as crate::c_api::z_size);
+    // reference scan
+    let mut pos = NI + 1;
+    let mut i = 0;
+    while i + 4 <= NI {
+        if pos > NI && i + 4 <= n_in as usize && input[i] == 0 && input[i + 1] == 0 && input[i + 2] == 0xff && input[i + 3] == 0xff {
+            pos = i;
+        }
+        i += 1;
+    }
+    if n_in == 0 {
+        assert!(rc == ReturnCode::BufError);
+    } else if pos <= NI {
+        assert!(rc == ReturnCode::Ok && used == pos + 4);
+        assert!(matches!(strm.state.mode, Mode::Type));
+        assert!(strm.total_out == 50);
+        // no header seen yet => continue as raw; otherwise checking is switched off
+        assert!(strm.state.wrap == if hdr_seen { wrap & !4 } else { 0 });
+    } else {
+        assert!(rc == ReturnCode::DataError && used == n_in as usize && matches!(strm.state.mode, Mode::Sync));
+    }
+    kani::cover!(rc == ReturnCode::Ok && used == 7);
+    kani::cover!(rc == ReturnCode::DataError && n_in == 7);
+    core::mem::forget(strm);
+    core::mem::forget(state);
+}
